@@ -154,6 +154,9 @@ def corpus():
 
 def run_tie(run, tier, seed, designs, outs):
     quick = tier == "quick"
+    if not quick:
+        # the in-Coq evaluation of three net partitions per design is the costly part: the thorough tier ties a prefix
+        designs, outs = designs[:2500], outs[:2500]
     corp = corpus()
     extra = [d for d, _ in corp]
     extra_outs = core.run_worker_sharded("c01", [dict(design=d, spice=False) for d in extra])
